@@ -18,6 +18,14 @@ import (
 // RepoDir is the tree under verification. Always the live working tree.
 var RepoDir = "/repo"
 
+func init() {
+	// developer option (never set by the registered commands): point the engine at a
+	// scratch worktree of /repo, e.g. to try a seeded change while /repo is in use
+	if d := os.Getenv("GOVC_REPO"); d != "" {
+		RepoDir = d
+	}
+}
+
 const ModPath = "github.com/henrylee2cn/erpc/v6"
 
 // Program is the loaded, SSA-built view of /repo (current working tree).
